@@ -45,6 +45,21 @@ class Result:
         self.minimums.append((label, found, minimum))
 
 
+def norm_root(expr):
+    import re as _re
+    return _re.sub(r'^(this|arg\d+)(\._parameters)?\.', '*.', expr)
+
+
+def is_known(o, known):
+    """index of the open known finding that observation o is an instance of, else None"""
+    for i, k in enumerate(known):
+        if k['rule'] == o['rule'] and k['function'] == o['function'] and k['expr'] == o['expr']:
+            return i
+        if k.get('match') == 'expr-anywhere' and k['rule'] == o['rule'] and norm_root(k['expr']) == norm_root(o['expr']):
+            return i
+    return None
+
+
 def load_known():
     p = os.path.join(VERIF, 'known_findings.json')
     if not os.path.exists(p):
@@ -64,6 +79,10 @@ def finish(res, seed=0):
             hit = None
             for i, k in enumerate(known):
                 if k['rule'] == o['rule'] and k['function'] == o['function'] and k['expr'] == o['expr']:
+                    hit = i
+                    break
+                # a finding identified by the failing input (the value read), wherever the read sits
+                if k.get('match') == 'expr-anywhere' and k['rule'] == o['rule'] and norm_root(k['expr']) == norm_root(o['expr']):
                     hit = i
                     break
             if hit is not None:
